@@ -1462,4 +1462,356 @@ theorem hprogVisit_local (pr : Prog) (r : Bool) : LocalVisit ⟨hprogVisit pr, r
     | none => simp only [VAct.toVisit] at hv; injection hv with _ h2; right; exact h2.symm
     | some a => simp only [VAct.toVisit] at hv; injection hv with _ h2; left; exact ⟨a, h2.symm⟩
 
+/-! ## heap level: research paths are retrievable (sharing and cycles included) -/
+
+/-- `cur[seg]` if sets could be indexed by their enumeration index too -/
+def hgetChild' (h : Heap) (cur : Obj) (seg : Atom) : Option Obj :=
+  match cur with
+  | .atom _ => none
+  | .ref id => match h[id]? with
+    | none => none
+    | some nd => lookupKey seg (enumItems nd.kind 0 nd.items)
+
+def hgetPath' (h : Heap) : Obj → Path → Option Obj
+  | cur, [] => some cur
+  | cur, seg :: r => match hgetChild' h cur seg with
+    | none => none
+    | some c => hgetPath' h c r
+
+/-- whether following `path` from `cur` indexes into a set / frozenset (or leaves the structure) -/
+def hsetOnPath (h : Heap) : Obj → Path → Bool
+  | _, [] => false
+  | cur, seg :: r =>
+    match cur with
+    | .atom _ => true
+    | .ref id => match h[id]? with
+      | none => true
+      | some nd =>
+        if nd.kind.isSet then true else
+        match lookupKey seg (enumItems nd.kind 0 nd.items) with
+        | none => true
+        | some c => hsetOnPath h c r
+
+theorem hgetPath_eq_of_noSet (h : Heap) (cur : Obj) (p : Path) (hs : hsetOnPath h cur p = false) :
+    hgetPath h cur p = hgetPath' h cur p := by
+  induction p generalizing cur with
+  | nil => rfl
+  | cons seg r ih =>
+    cases cur with
+    | atom a => simp [hsetOnPath] at hs
+    | ref id =>
+      simp only [hsetOnPath] at hs
+      simp only [hgetPath, hgetPath', hgetChild, hgetChild']
+      cases hnd : h[id]? with
+      | none => simp [hnd] at hs
+      | some nd =>
+        simp only [hnd] at hs ⊢
+        split at hs
+        · simp at hs
+        · rename_i hset
+          simp only [Bool.not_eq_true] at hset
+          simp only [hset]
+          cases hl : lookupKey seg (enumItems nd.kind 0 nd.items) with
+          | none => simp
+          | some c =>
+            simp only [hl] at hs
+            simpa using ih c hs
+
+theorem hgetPath'_append (h : Heap) (cur : Obj) (p : Path) (k : Atom) :
+    hgetPath' h cur (p ++ [k]) = match hgetPath' h cur p with
+      | none => none
+      | some c => hgetChild' h c k := by
+  induction p generalizing cur with
+  | nil =>
+    simp only [List.nil_append, hgetPath']
+    cases hgetChild' h cur k <;> rfl
+  | cons seg r ih =>
+    simp only [List.cons_append, hgetPath']
+    cases hgetChild' h cur seg with
+    | none => rfl
+    | some c => exact ih c
+
+theorem lookupKey_of_mem (k : Atom) (o : Obj) (l : List (Key × Obj)) (hn : (l.map Prod.fst).Nodup)
+    (hm : (k, o) ∈ l) : lookupKey k l = some o := by
+  induction l with
+  | nil => simp at hm
+  | cons x r ih =>
+    obtain ⟨k', o'⟩ := x
+    simp only [List.map_cons, List.nodup_cons] at hn
+    simp only [List.mem_cons] at hm
+    rcases hm with h1 | h1
+    · injection h1 with h1 h2; subst h1; subst h2; simp [lookupKey]
+    · have hne : k' ≠ k := by
+        intro he; subst he
+        exact hn.1 (List.mem_map.2 ⟨(k', o), h1, rfl⟩)
+      simp [lookupKey, hne, ih hn.2 h1]
+
+theorem enumItems_keys_seq (kd : Kind) (hk : kd ≠ .dict) (l : List (Key × Obj)) (i : Nat) :
+    ∀ k ∈ (enumItems kd i l).map Prod.fst, ∃ j, i ≤ j ∧ k = .int j := by
+  induction l generalizing i with
+  | nil => simp [enumItems]
+  | cons x r ih =>
+    obtain ⟨a, b⟩ := x
+    intro k hk'
+    simp only [enumItems, List.map_cons, List.mem_cons] at hk'
+    rcases hk' with h1 | h1
+    · exact ⟨i, Nat.le_refl _, by simp [h1, effKey, hk]⟩
+    · obtain ⟨j, hj, he⟩ := ih (i + 1) k h1
+      exact ⟨j, by omega, he⟩
+
+theorem enumItems_keys_nodup_seq (kd : Kind) (hk : kd ≠ .dict) (l : List (Key × Obj)) (i : Nat) :
+    ((enumItems kd i l).map Prod.fst).Nodup := by
+  induction l generalizing i with
+  | nil => simp [enumItems]
+  | cons x r ih =>
+    obtain ⟨a, b⟩ := x
+    simp only [enumItems, List.map_cons, List.nodup_cons]
+    refine ⟨?_, ih (i + 1)⟩
+    intro hm
+    obtain ⟨j, hj, he⟩ := enumItems_keys_seq kd hk r (i + 1) _ hm
+    simp only [effKey, hk, if_false] at he
+    injection he with he
+    omega
+
+theorem enumItems_dict (l : List (Key × Obj)) (i : Nat) : enumItems .dict i l = l := by
+  induction l generalizing i with
+  | nil => rfl
+  | cons x r ih => obtain ⟨a, b⟩ := x; simp [enumItems, effKey, ih]
+
+/-- the keys of every dict are pairwise distinct (a fact about every Python dict) -/
+def DictKeysNodup (h : Heap) : Prop := ∀ nd ∈ h, nd.kind = .dict → (nd.items.map Prod.fst).Nodup
+
+theorem enum_keys_nodup (h : Heap) (hd : DictKeysNodup h) (nd : Node) (hm : nd ∈ h) :
+    ((enumItems nd.kind 0 nd.items).map Prod.fst).Nodup := by
+  by_cases hk : nd.kind = .dict
+  · rw [hk, enumItems_dict]; exact hd nd hm hk
+  · exact enumItems_keys_nodup_seq nd.kind hk nd.items 0
+
+/-- every pending item sits where the current / saved paths say it sits -/
+def PathOK (h : Heap) (root : Obj) : List HFrame → Path → List Path → Prop
+  | [], _, _ => True
+  | .item k o :: rest, p, ps => hgetPath' h root (p ++ [k]) = some o ∧ PathOK h root rest p ps
+  | .exit _ _ _ _ :: rest, _, pp :: ps => PathOK h root rest pp ps
+  | .exit _ _ _ _ :: _, _, [] => True
+
+theorem PathOK_items (h : Heap) (root : Obj) (l : List (Key × Obj)) (tail : List HFrame) (p : Path)
+    (ps : List Path) (hl : ∀ kv ∈ l, hgetPath' h root (p ++ [kv.1]) = some kv.2)
+    (ht : PathOK h root tail p ps) : PathOK h root (itemFrames l ++ tail) p ps := by
+  induction l with
+  | nil => simpa [itemFrames] using ht
+  | cons x r ih =>
+    simp only [itemFrames, List.map_cons, List.cons_append, PathOK]
+    exact ⟨hl x (by simp), ih fun kv hkv => hl kv (by simp [hkv])⟩
+
+@[simp] theorem appendItem_nis_paths (s : HSt) (it : Key × Obj) :
+    (appendItem s it).nis.map Prod.fst = s.nis.map Prod.fst := by
+  unfold appendItem; split
+  · rfl
+  · rename_i hn; simp [hn]
+
+@[simp] theorem appendItem_path (s : HSt) (it : Key × Obj) : (appendItem s it).path = s.path := by
+  unfold appendItem; split <;> rfl
+
+@[simp] theorem finishItem_nis_paths (c : HCfg) (s : HSt) (rest : List HFrame) (k : Key) (src val : Obj) :
+    (finishItem c s rest k src val).nis.map Prod.fst = s.nis.map Prod.fst := by
+  unfold finishItem; split <;> (try split) <;> simp
+
+@[simp] theorem finishItem_path (c : HCfg) (s : HSt) (rest : List HFrame) (k : Key) (src val : Obj) :
+    (finishItem c s rest k src val).path = s.path := by
+  unfold finishItem; split <;> (try split) <;> simp
+
+theorem enterLog_append (a b : List Ev) : enterLog (a ++ b) = enterLog a ++ enterLog b := by
+  induction a with
+  | nil => rfl
+  | cons e r ih => cases e <;> simp [enterLog, ih]
+
+/-- every logged enter call except the root's own -/
+def nestedEnters (s : HSt) : List (Path × Key × Obj) := (enterLog s.trace).drop 1
+
+def LogOK (h : Heap) (root : Obj) (s : HSt) : Prop :=
+  ∀ e ∈ nestedEnters s, hgetPath' h root (e.1 ++ [e.2.1]) = some e.2.2
+
+def RootOK (root : Obj) (s : HSt) : Prop := ∀ rid, root = .ref rid → lookup rid s.reg ≠ none
+
+def PInv (h : Heap) (root : Obj) (s : HSt) : Prop :=
+  LogOK h root s ∧
+  (s = hinit root ∨ s.err ≠ none ∨ s.stack = [] ∨
+    (enterLog s.trace ≠ [] ∧ RootOK root s ∧ PathOK h root s.stack s.path (s.nis.map Prod.fst)))
+
+theorem LogOK_append_visit (h : Heap) (root : Obj) (s : HSt) (tr : List Ev)
+    (hl : LogOK h root s) (ht : enterLog tr = []) (s' : HSt) (hs : s'.trace = s.trace ++ tr) :
+    LogOK h root s' := by
+  intro e he
+  simp only [nestedEnters, hs, enterLog_append, ht, List.append_nil] at he
+  exact hl e he
+
+theorem LogOK_append_enter (h : Heap) (root : Obj) (s : HSt) (p : Path) (k : Key) (o : Obj) (t : Bool)
+    (tr : List Ev) (hl : LogOK h root s) (hne : enterLog s.trace ≠ [])
+    (hp : hgetPath' h root (p ++ [k]) = some o) (ht : enterLog tr = []) (s' : HSt)
+    (hs : s'.trace = s.trace ++ [.enter p k o t] ++ tr) : LogOK h root s' := by
+  intro e he
+  simp only [nestedEnters, hs, enterLog_append, ht, List.append_nil, enterLog] at he
+  rw [List.drop_append_of_le_length (by
+    cases hx : enterLog s.trace with
+    | nil => exact absurd hx hne
+    | cons a r => simp)] at he
+  simp only [List.mem_append, List.mem_singleton] at he
+  rcases he with he | he
+  · exact hl e he
+  · subst he; exact hp
+
+theorem enterLog_append_ne (a b : List Ev) (h : enterLog a ≠ []) : enterLog (a ++ b) ≠ [] := by
+  rw [enterLog_append]
+  intro he
+  exact h (List.append_eq_nil_iff.1 he).1
+
+theorem children_retrievable (h : Heap) (root : Obj) (hd : DictKeysNodup h) (p : Path) (id : Nat)
+    (nd : Node) (hnd : h[id]? = some nd) (hp : hgetPath' h root p = some (.ref id)) :
+    ∀ kv ∈ enumItems nd.kind 0 nd.items, hgetPath' h root (p ++ [kv.1]) = some kv.2 := by
+  intro kv hkv
+  rw [hgetPath'_append, hp]
+  simp only [hgetChild', hnd]
+  exact lookupKey_of_mem kv.1 kv.2 _ (enum_keys_nodup h hd nd (List.mem_of_getElem? hnd)) hkv
+
+theorem PInv_step (c : HCfg) (h : Heap) (root : Obj) (hd : DictKeysNodup h) (s s' : HSt)
+    (hi : PInv h root s) (hs : hstep c h root s = some s') : PInv h root s' := by
+  obtain ⟨hlog, hcase⟩ := hi
+  rcases hcase with hinit' | herr | hstk | ⟨hne, hroot, hpath⟩
+  · -- first step
+    subst hinit'
+    simp only [hstep, hinit] at hs
+    cases root with
+    | atom a =>
+      simp only at hs
+      injection hs with hs; subst hs
+      refine ⟨?_, Or.inr (Or.inr (Or.inl (by simp)))⟩
+      intro e he; simp [nestedEnters, enterLog_append, enterLog] at he
+    | ref rid =>
+      simp only [lookup] at hs
+      cases hnd : h[rid]? with
+      | none =>
+        simp only [hnd] at hs
+        injection hs with hs; subst hs
+        refine ⟨?_, Or.inr (Or.inr (Or.inl (by simp)))⟩
+        intro e he; simp [nestedEnters, enterLog_append, enterLog] at he
+      | some nd =>
+        simp only [hnd] at hs
+        injection hs with hs; subst hs
+        refine ⟨?_, Or.inr (Or.inr (Or.inr ⟨by simp [enterLog], ?_, ?_⟩))⟩
+        · intro e he; simp [nestedEnters, enterLog] at he
+        · intro rid' hr; injection hr with hr; subst hr; simp [lookup]
+        · simp only [if_true, List.map_cons, List.map_nil]
+          apply PathOK_items
+          · exact children_retrievable h (.ref rid) hd [] rid nd hnd rfl
+          · simp [PathOK]
+  · unfold hstep at hs
+    split at hs
+    · simp at hs
+    · rename_i he; exact absurd he herr
+  · unfold hstep at hs
+    split at hs
+    · simp at hs
+    · simp [hstk] at hs
+  · unfold hstep at hs
+    split at hs
+    · simp at hs
+    · split at hs
+      · simp at hs
+      · rename_i k old new kd rest hst
+        rw [hst] at hpath
+        split at hs
+        · injection hs with hs; subst hs
+          exact ⟨hlog, Or.inr (Or.inl (by simp))⟩
+        · rename_i p items nr hnis
+          rw [hnis] at hpath
+          simp only [List.map_cons, PathOK] at hpath
+          split at hs
+          · injection hs with hs; subst hs
+            refine ⟨LogOK_append_visit h root s [.exit old] hlog rfl _ rfl, Or.inr (Or.inr (Or.inr ⟨?_, ?_, ?_⟩))⟩
+            · simp only [finishItem_trace, List.append_assoc]; exact enterLog_append_ne _ _ hne
+            · intro rid hr; exact lookup_cons_ne_none (hroot rid hr)
+            · simpa using hpath
+          · injection hs with hs; subst hs
+            refine ⟨LogOK_append_visit h root s [.exit old, .visit p k (.ref old) (exitNode kd new items s.out).2] hlog rfl _ (by simp),
+              Or.inr (Or.inr (Or.inr ⟨?_, ?_, ?_⟩))⟩
+            · simp only [finishItem_trace, List.append_assoc]; exact enterLog_append_ne _ _ hne
+            · intro rid hr; simp only [finishItem_reg]; exact lookup_cons_ne_none (hroot rid hr)
+            · simpa using hpath
+      · rename_i k o rest hst
+        rw [hst] at hpath
+        simp only [PathOK] at hpath
+        split at hs
+        · rename_i a
+          injection hs with hs; subst hs
+          refine ⟨LogOK_append_enter h root s s.path k (.atom a) false [.visit s.path k (.atom a) (.atom a)] hlog hne hpath.1 rfl _ (by simp),
+            Or.inr (Or.inr (Or.inr ⟨?_, ?_, ?_⟩))⟩
+          · simp only [finishItem_trace, List.append_assoc]; exact enterLog_append_ne _ _ hne
+          · intro rid hr; simpa using hroot rid hr
+          · simpa using hpath.2
+        · rename_i id
+          split at hs
+          · rename_i v hlk
+            injection hs with hs; subst hs
+            refine ⟨LogOK_append_visit h root s [.visit s.path k (.ref id) v] hlog rfl _ (by simp),
+              Or.inr (Or.inr (Or.inr ⟨?_, ?_, ?_⟩))⟩
+            · simp only [finishItem_trace, List.append_assoc]; exact enterLog_append_ne _ _ hne
+            · intro rid hr; simpa using hroot rid hr
+            · simpa using hpath.2
+          · rename_i hlk
+            split at hs
+            · injection hs with hs; subst hs
+              refine ⟨LogOK_append_enter h root s s.path k (.ref id) false [.visit s.path k (.ref id) (.ref id)]
+                  hlog hne hpath.1 rfl _ (by simp), Or.inr (Or.inr (Or.inr ⟨?_, ?_, ?_⟩))⟩
+              · simp only [finishItem_trace, List.append_assoc]; exact enterLog_append_ne _ _ hne
+              · intro rid hr; simpa using hroot rid hr
+              · simpa using hpath.2
+            · rename_i nd hnd
+              injection hs with hs; subst hs
+              have hnr : Obj.ref id ≠ root := by
+                intro he; exact hroot id he.symm hlk
+              refine ⟨LogOK_append_enter h root s s.path k (.ref id) true [] hlog hne hpath.1 rfl _ (by simp),
+                Or.inr (Or.inr (Or.inr ⟨?_, ?_, ?_⟩))⟩
+              · simp only [finishItem_trace, List.append_assoc]; exact enterLog_append_ne _ _ hne
+              · intro rid hr; exact lookup_cons_ne_none (hroot rid hr)
+              · simp only [hnr, if_false, List.map_cons]
+                apply PathOK_items
+                · exact children_retrievable h root hd (s.path ++ [k]) id nd hnd hpath.1
+                · simpa [PathOK] using hpath.2
+
+theorem PInv_run (c : HCfg) (h : Heap) (root : Obj) (hd : DictKeysNodup h) (n : Nat) (s : HSt)
+    (hi : PInv h root s) : PInv h root (hrun c h root n s) := by
+  induction n generalizing s with
+  | zero => exact hi
+  | succ n ih =>
+    simp only [hrun]
+    cases hs : hstep c h root s with
+    | none => exact hi
+    | some s' => exact ih s' (PInv_step c h root hd s s' hi hs)
+
+theorem LogOK_final (c : HCfg) (h : Heap) (root : Obj) (hd : DictKeysNodup h) :
+    LogOK h root (hfinal c h root) :=
+  (PInv_run c h root hd _ _ ⟨by intro e he; simp [nestedEnters, hinit, enterLog] at he, Or.inl rfl⟩).1
+
+/-! ## tree level: filtering visitors keep dict keys in order -/
+
+theorem toList_ofList : (l : List (Key × Val)) → (ofList l).toList = l
+  | [] => rfl
+  | (k, v) :: r => by simp [ofList, Items.toList, toList_ofList r]
+
+/-- a visit callback that only filters: it returns `True` or `False` -/
+def FilterVisit (vf : VisitFn Val) : Prop := ∀ p k v, vf p k v = .keep ∨ vf p k v = .drop
+
+theorem rebuildItems_keys_sublist (c : Cfg) (hf : FilterVisit c.vf) (p : Path) (kd : Kind) :
+    (its : Items) → (i : Nat) → ((rebuildItems c p kd i its).map Prod.fst).Sublist (keysOf kd i its)
+  | .nil, i => by simp [rebuildItems, keysOf]
+  | .cons k v r, i => by
+    have ih := rebuildItems_keys_sublist c hf p kd r (i + 1)
+    simp only [rebuildItems, keysOf, List.map_append]
+    rcases hf p (effKey kd i k) (rebuildChild c p (effKey kd i k) v) with h | h
+    · simp only [applyVisit, h, List.map_cons, List.map_nil, List.singleton_append]
+      exact ih.cons_cons _
+    · simp only [applyVisit, h, List.map_nil, List.nil_append]
+      exact ih.cons _
+
+
 end C08
